@@ -12,10 +12,6 @@ open Panqec.Lat2D
 
 variable {Lx Ly : Nat}
 
-theorem length_colKeys (u : Int) (p L : Nat) : (colKeys u p L).length = L := by
-  simp [colKeys]
-theorem length_rowKeys (u : Int) (p L : Nat) : (rowKeys u p L).length = L := by
-  simp [rowKeys]
 
 /-- vertical lines at `x = 2i + 1 - p` through `y = 2j + p` are qubit lines -/
 theorem colKeys_qubits (p : Nat) (hp : p ≤ 1) (i : Nat) (hi : i < Lx) :
@@ -32,21 +28,6 @@ theorem rowKeys_qubits (p : Nat) (hp : p ≤ 1) (i : Nat) (hi : i < Ly) :
   show _ ∈ qubits Lx Ly
   rw [mem_qubits']; unfold IsQ InBox; omega
 
-theorem colKeys_disjoint (p L : Nat) (c : Int) (i i' : Nat) (h : i < i') :
-    ∀ q ∈ colKeys (2 * i + c) p L, q ∉ colKeys (2 * i' + c) p L := by
-  intro q hq hq'
-  obtain ⟨j, _, rfl⟩ := mem_colKeys.mp hq
-  obtain ⟨j', _, e⟩ := mem_colKeys.mp hq'
-  simp only [List.cons.injEq, and_true] at e
-  omega
-
-theorem rowKeys_disjoint (p L : Nat) (c : Int) (i i' : Nat) (h : i < i') :
-    ∀ q ∈ rowKeys (2 * i + c) p L, q ∉ rowKeys (2 * i' + c) p L := by
-  intro q hq hq'
-  obtain ⟨j, _, rfl⟩ := mem_rowKeys.mp hq
-  obtain ⟨j', _, e⟩ := mem_rowKeys.mp hq'
-  simp only [List.cons.injEq, and_true] at e
-  omega
 
 /-- every non-trivial logical operator of the `Lx × Ly` toric code has weight `≥ min Lx Ly` -/
 theorem lower_bound (hx : 2 ≤ Lx) (hy : 2 ≤ Ly)
